@@ -89,7 +89,7 @@ def run(ctx):
         "allocation refusal: Model/BufferAlloc.v answers every malloc/realloc request of an operation from an oracle; tied to the C by refusing the k-th request (harness built against the -vfmem library variant); leaks after a refusal are C16's subject",
     ]
     bad = common.forbidden_scan()
-    cres = common.coq_property(PID)
+    cres = common.coq_properties([PID, "X_buffers"])
     common.proof_coverage(ctx, cres)
     proof_broken = (not cres["ok"]) or bool(bad)
 
